@@ -48,6 +48,7 @@ def flat_prog(
     split_rate: float = 0.0,
     same_qual_rate: float = 0.0,
     setup_dense: bool = False,
+    short_name_rate: float = 0.0,
 ) -> Dict[str, Any]:
     """A call-only program: every statement is one call of a constructor function, depending on earlier
     sites through positional args / kwargs / activation flags.  Acyclic by construction."""
@@ -58,6 +59,10 @@ def flat_prog(
         )
     else:
         names = [f"f{i}" for i in range(n)]
+        if short_name_rate and chance(draw, short_name_rate):
+            # a function simply called "s": its id is a proper substring of every site tag ("s0", "s1", ...) - which
+            # must not matter, ids and tags are matched as whole strings
+            names[draw(st.integers(0, n - 1))] = "s"
     params = [[f"p{i}", None] for i in range(n_params)]
     fns: Dict[str, Any] = {}
     body: List[Any] = []
